@@ -290,12 +290,12 @@ func r07_3(c *Ctx, rule string) {
 		}
 		nReq++
 		pl, _ := c.packetOf(in.(ssa.CallInstruction))
-		c.R.Check(pl != nil && pl.Fields["ID"] == idVal, rule, base+"/req-id", c.pos(in), "REQ carries the looked-up id", "the REQ packet's ID is not the id looked up for the path")
+		c.R.Check(pl != nil && eng.SameValue(pl.Fields["ID"], idVal), rule, base+"/req-id", c.pos(in), "REQ carries the looked-up id", "the REQ packet's ID is not the id looked up for the path")
 		c.ObErrChecked(rule+"/req-checked", in.(ssa.CallInstruction))
 	})
 	eng.Instrs(fn, func(in ssa.Instruction) {
 		if isPipeReg(in) {
-			c.R.Check(in.(*ssa.MapUpdate).Key == idVal, rule, base+"/pipe-key", c.pos(in), "pipe registered under the looked-up id", "the pipe is registered under a different key than the id requested")
+			c.R.Check(eng.SameValue(in.(*ssa.MapUpdate).Key, idVal), rule, base+"/pipe-key", c.pos(in), "pipe registered under the looked-up id", "the pipe is registered under a different key than the id requested")
 		}
 	})
 	// the only REQ site of the package
